@@ -15,7 +15,12 @@ import (
 
 // C09 — format produces one canonical layout and is idempotent; --check agrees with it.
 
-func genC09(t *rapid.T) FmtCase { return genFmtCase(t, false) }
+// genC09: one case in three also carries the lines on which parser and formatter may disagree (directives behind
+// form feed / NBSP indentation, labelled end markers ...): no layout reference exists for those, but idempotence
+// and the agreement of --check with format hold for every input.
+func genC09(t *rapid.T) FmtCase {
+	return genFmtCase(t, rapid.IntRange(0, 2).Draw(t, "withdisagreement") == 0)
+}
 
 // expectedLayout is the line-aligned reference layout for a structured case; ok=false when the
 // case holds lines the layout sentence says nothing about (raw lines, unbalanced markers).
